@@ -16,7 +16,7 @@
    execution (op-level oracle), not proved: the dynamic clause is PARTIAL. *)
 From VF Require Import Base.Prelude Gen.Enums Gen.Configs Gen.Checks Model.Graph Gen.InstChecks
      Model.Perform Model.Sem Spec.WF Proofs.ListFacts Proofs.PerformStep Proofs.ModeProofs
-     Proofs.SemProofs Proofs.SemGlue.
+     Proofs.SemProofs Proofs.SemGlue Proofs.SemRun.
 
 Theorem C06_dequantize_insertion_preserves_meaning :
   forall (val : Type) (K : Z -> Z -> list (option val) -> list val)
@@ -73,6 +73,49 @@ Proof.
   rewrite !(mode_table c _ _ M). unfold expected_trans. rewrite S1, S2. auto.
 Qed.
 Print Assumptions C06_weight_only_plans_dequantize.
+
+(* ---- whole graphs, any number of constants ----
+   [inter n0 isq q dq nm ops0 ops]: ops is an interleaving of the original
+   operators ops0 — same code, options and results; every operand either
+   unchanged (and then not a quantized constant) or the result of an earlier
+   DEQUANTIZE of the original operand — with one-in/one-out operators that
+   read a quantized constant c (isq c), write a fresh new tensor, and whose
+   kernel maps q c to dq c.  Such a graph computes on every original tensor
+   that is not a quantized constant exactly what the original graph computes
+   with dq c in place of every quantized constant c. *)
+Theorem C06_interleaved_graph_preserves_meaning :
+  forall (val : Type) (K : Z -> Z -> list (option val) -> list val)
+         n0 isq (q dq : Z -> val) ops0 ops e0 e,
+    (forall c, isq c = true -> 0 <= c < n0) ->
+    inter val K n0 isq q dq [] ops0 ops ->
+    (forall t, t < n0 -> isq t = false -> e t = e0 t) ->
+    (forall c, isq c = true -> e0 c = Some (dq c) /\ e c = Some (q c)) ->
+    forall t, t < n0 -> isq t = false -> run val K ops e t = run val K ops0 e0 t.
+Proof. intros. eapply inter_same_results; eassumption. Qed.
+Print Assumptions C06_interleaved_graph_preserves_meaning.
+
+(* the interleaving is decidable up to the kernel contract; correspondence
+   I+T+E evaluates [interb] inside Coq on the result of EVERY generated
+   float-compute run (all instructions ADD_DEQUANTIZE / NO_QUANTIZE) *)
+Theorem C06_interleaving_check_is_sound :
+  forall (val : Type) (K : Z -> Z -> list (option val) -> list val)
+         n0 isq (q dq : Z -> val) ops nm ops0,
+    (forall o c, In o ops -> o_uid o = UID_INSERTED -> o_ins o = [c] ->
+                 K (o_code o) (o_uid o) [Some (q c)] = [dq c]) ->
+    interb n0 isq nm ops0 ops = true -> inter val K n0 isq q dq nm ops0 ops.
+Proof. intros. eapply interb_sound; eassumption. Qed.
+Print Assumptions C06_interleaving_check_is_sound.
+
+(* non-vacuity: two FCs sharing input x, each with its own quantized weight *)
+Example C06_interleaving_nonvacuous :
+  let o k a b c := {| o_code := k; o_ins := a; o_outs := b; o_uid := c |} in
+  interb 5 (fun c => Z.eqb c 1 || Z.eqb c 2) []
+         [o 0 [0; 1] [3] 0; o 0 [0; 2] [4] 1]
+         [o 9 [1] [5] UID_INSERTED; o 0 [0; 5] [3] 0; o 9 [2] [6] UID_INSERTED; o 0 [0; 6] [4] 1] = true /\
+  interb 5 (fun c => Z.eqb c 1 || Z.eqb c 2) []
+         [o 0 [0; 1] [3] 0; o 0 [0; 2] [4] 1]
+         [o 9 [1] [5] UID_INSERTED; o 0 [0; 5] [3] 0; o 0 [0; 2] [4] 1] = false.
+Proof. vm_compute. split; reflexivity. Qed.
 
 (* dynamic range (PARTIAL: idealised kernel contract as hypothesis) *)
 Theorem C06_dynamic_range_partial :
